@@ -1037,9 +1037,84 @@ func c07r7(c *Ctx, r *Report) {
 				return isK && k.IsNil() && (b.Op == token.NEQ && !v || b.Op == token.EQL && v)
 			})
 		})
-		r.check(holds && reach, fmt.Sprintf("%s:the relay is awaited only after a command that ran", relName(rp)), in.Pos(), rp,
-			"the join is reached only where cmd.Run returned nil", "the join can be reached after cmd.Run failed: the pipe is never opened and fzf hangs")
+		// ... or after the relay itself has reported that the pipe was opened: the join is dominated by a
+		// select that receives from a channel which the relay goroutine closes (D75: a session that ends with
+		// status 1 has printed --print-query / --expect lines; they were lost when stdout was read slowly)
+		viaOpened := false
+		eachInstr(rp, func(i2 ssa.Instruction) {
+			sel, ok := i2.(*ssa.Select)
+			if !ok || !dominates(sel, in) {
+				return
+			}
+			for _, st := range sel.States {
+				if st.Dir != types.RecvOnly {
+					continue
+				}
+				for _, g := range withClosures(rp) {
+					if g == rp {
+						continue
+					}
+					eachInstr(g, func(i3 ssa.Instruction) {
+						if c3, ok := i3.(*ssa.Call); ok {
+							if b, isB := c3.Common().Value.(*ssa.Builtin); isB && b.Name() == "close" && len(c3.Call.Args) == 1 {
+								if samePath(c3.Call.Args[0], st.Chan, 0) || cellRoot(stripLoad(c3.Call.Args[0])) == cellRoot(stripLoad(st.Chan)) {
+									viaOpened = true
+								}
+							}
+						}
+					})
+				}
+			}
+		})
+		r.check(holds && reach || viaOpened, fmt.Sprintf("%s:the relay is awaited only after a command that ran", relName(rp)), in.Pos(), rp,
+			"the join is reached only where cmd.Run returned nil, or after the relay reported that the pipe was opened", "the join can be reached after cmd.Run failed without knowing that the pipe was opened: if it never is, fzf hangs")
 	})
+	// D75: the exit status of the popup's fzf (1: nothing accepted, 130: aborted) is returned only after the
+	// conditional join above
+	nCode := 0
+	// the places where the exit status becomes the result: plain returns, or (the function has deferred calls)
+	// the stores into the result variable that precede the jump to the common return
+	type resultSite struct {
+		at  ssa.Instruction
+		val ssa.Value
+	}
+	var sites []resultSite
+	eachInstr(rp, func(in ssa.Instruction) {
+		ret, ok := in.(*ssa.Return)
+		if !ok || len(ret.Results) != 2 {
+			return
+		}
+		if u, isLoad := ret.Results[0].(*ssa.UnOp); isLoad && u.Op == token.MUL {
+			if al, isAlloc := u.X.(*ssa.Alloc); isAlloc {
+				for _, st := range storesToAlloc(al) {
+					sites = append(sites, resultSite{st, st.Val})
+				}
+				return
+			}
+		}
+		sites = append(sites, resultSite{ret, ret.Results[0]})
+	})
+	for _, site := range sites {
+		isCode := false
+		for w := range backwardSlice(site.val, func(*ssa.CallCommon) bool { return true }, func(x ssa.Value) bool { _, isAlloc := x.(*ssa.Alloc); return isAlloc }) {
+			if c2, ok := w.(*ssa.Call); ok && strings.HasSuffix(calleeName(c2.Common()), ").ExitCode") {
+				isCode = true
+			}
+		}
+		if !isCode {
+			continue
+		}
+		nCode++
+		guarded := false
+		eachInstr(rp, func(i2 ssa.Instruction) {
+			if sel, ok := i2.(*ssa.Select); ok && dominates(sel, site.at) {
+				guarded = true
+			}
+		})
+		r.check(guarded, fmt.Sprintf("%s:the popup's exit status is returned after the conditional join", relName(rp)), site.at.Pos(), rp,
+			"a select on the relay's `opened` signal precedes the return", "the popup's own exit status (1, 130) is returned without giving the output relay a chance: --print-query / --expect lines of a session that accepted nothing can be lost")
+	}
+	r.floor("returns of the popup's exit status in runProxy", nCode, 1)
 	esc := pathAvoiding(run, isRet, isJoin, nil)
 	where := ""
 	if esc != nil {
@@ -6020,4 +6095,12 @@ func c16r15(c *Ctx, r *Report) {
 		})
 	}
 	r.floor("final-token returns of the request scanner", n, 1)
+}
+
+// stripLoad returns the address a value was loaded from (or the value itself).
+func stripLoad(v ssa.Value) ssa.Value {
+	if u, ok := v.(*ssa.UnOp); ok && u.Op == token.MUL {
+		return u.X
+	}
+	return v
 }
